@@ -103,7 +103,7 @@ theorem start_step_cases (s : Start.State) (q : Nat) (e : Elem Nat) (h : s.missi
     cases hp : s.pending with
     | none => simp [h, Elem.isData]
     | some p => simp only [h]; exact ⟨by simp, by simp, by simp, by simp, fun _ => ⟨[.wm p], rfl, by simp [Elem.isData]⟩, by simp [Elem.isData]⟩
-  | flushBatch => simp [Start.step, h, Elem.isData]
+  | flushBatch => simp only [Start.step, h, if_false]; cases s.pending <;> simp [h, Elem.isData]
   | wm t =>
     simp only [Start.step, h, if_false]
     cases (s.frontier.update q t).2 <;> simp [h, Elem.isData]
